@@ -132,7 +132,7 @@ def check_suite_ids(rep, facts, rule='R02.2'):
         rt = a.ret_val()
         total = len(prefix) + 2 * len(slots)
         enc_keys = set()
-        sym = symbolic_bytes(rt, enc_keys)
+        sym = symbolic_bytes(rt, enc_keys, a)
         if sym is None:
             rep.undecided(rule, fn, 'shape', pp(rt)[:200], 'a byte array built from constants and big-endian encodings of the identifiers '
                           '(template + write_u16_be, or an array literal over to_be_bytes)', where(a))
@@ -152,7 +152,7 @@ def check_suite_ids(rep, facts, rule='R02.2'):
         rep.check(len(enc_keys) <= 1, rule, fn, 'encoder', sorted(enc_keys), 'identifiers written by the verified big-endian u16 encoder (or u16::to_be_bytes)', where(a))
 
 
-def symbolic_bytes(t, enc_keys=None):
+def symbolic_bytes(t, enc_keys=None, a=None):
     """per-byte symbolic value of a byte-array term: ('c', byte) | ('be', value term, k, n) = byte k of the n-byte big-endian
     encoding of value | None if the term is not understood.  Understands constants, array literals over constants and
     `to_be_bytes(v)[k]`, and a template overwritten (on every path) by local big-endian encoder calls on constant ranges."""
@@ -177,7 +177,7 @@ def symbolic_bytes(t, enc_keys=None):
         width = {'u16': 2, 'u32': 4, 'u64': 8, 'u8': 1}.get(t[1][len('core::num::<impl '):].split('>')[0])
         return [('be', strip_sites(t[2][0]), k, width) for k in range(width)] if width else None
     if t[0] == 'mem' and not t[4]:
-        cur = symbolic_bytes(t[2], enc_keys)
+        cur = symbolic_bytes(t[2], enc_keys, a)
         if cur is None:
             return None
         for site, wpath, desc, dom in t[3]:
@@ -198,7 +198,9 @@ def symbolic_bytes(t, enc_keys=None):
                 for k in range(n):
                     cur[lo_v + k] = ('be', val, k, n)
             elif desc[1].endswith('copy_from_slice') and len(desc[2]) == 2:
-                src = symbolic_bytes(unref(desc[2][1]), enc_keys)
+                sref = desc[2][1]
+                sval = a.deref_val(sref, site) if (a is not None and sref[0] == 'addr' and sref[1][0] == 'local') else unref(sref)
+                src = symbolic_bytes(sval, enc_keys, a)
                 if src is None or len(src) != n:
                     return None
                 cur[lo_v:hi_v] = src
